@@ -107,6 +107,10 @@ TError ==
      /\ viol' = viol
           \cup When(~known, "outcome_for_unknown")
           \cup When(known /\ outcome[id] # "none", "outcome_twice")
+          \* C16: in the size / count / timer families nothing is scripted to fail for good and the brokers accept everything:
+          \* a message within MaxMessageBytes must be SENT (batched within the limits), not failed by the producer itself
+          \cup When(known /\ cfg.family \in {"limits", "timer", "lone"} /\ ~subInfo[id].late
+                    /\ subInfo[id].size + 120 <= cfg.maxMsgBytes, "within_limits_is_sent")   \* (120: room for the producer's own overhead estimate)
   /\ stats' = Bump("errors")
   /\ UNCHANGED <<cfg, submitted, subInfo, okAt, chosen, log, wire, bstate, icount, phase>>
 
